@@ -119,9 +119,9 @@ def run(ctx: Ctx):
     groups = {}
     bi = 0
     for k, (end_t, warm_t) in enumerate([(4, 2), (4, 0), (3, 3)]):
-        cs = dc.consts(MaxId=7, Cmds=CMDS, Bounds=[1, 2, 3], MaxCmds=6, Prios=[1, 5, 10], RelDelays=[0, 1, 2], MaxOps=2, BadKinds=[], EndT=end_t, WarmT=warm_t)
+        cs = dc.consts(MaxId=7, Cmds=CMDS, Bounds=[1, 2, 3], MaxCmds=8, MaxInits=2, Prios=[1, 5, 10], RelDelays=[0, 1, 2], MaxOps=2, BadKinds=[], EndT=end_t, WarmT=warm_t)
         files, mod, cfg = tlc.mc_files("MC_SimStats_sim", "SimStats", dc.tla_consts(cs), invariants=["PrintExpect"], level=70)
-        behs, r = tlc.simulate(mod, cfg, num=ctx.pick(70, 700), depth=55, seed=ctx.seed + 110 + k, extra_files=files, timeout=1800)
+        behs, r = tlc.simulate(mod, cfg, num=ctx.pick(70, 700), depth=70, seed=ctx.seed + 110 + k, extra_files=files, timeout=1800)
         ctx.add_tlc(f"SimStats -simulate end={end_t} warm={warm_t}", r)
         expect = {}
         for line in r.stdout.splitlines():
@@ -149,7 +149,7 @@ def run(ctx: Ctx):
             if len(ctx.violations) > 20:
                 break
         ctx.notes[f"quiescent_points_compared_end{end_t}_warm{warm_t}"] = nchecked[0]
-        if nchecked[0] < len(behs) // 2:
+        if nchecked[0] < len(behs) // 2 and not ctx.violations:
             raise tlc.MachineryError("vacuity: statistics compared at too few quiescent points")
     # C->S
     n = ctx.pick(200, 2500)
@@ -158,7 +158,7 @@ def run(ctx: Ctx):
         conc = dd.CONCS_OFF[i % len(dd.CONCS_OFF)]
         end_t, warm_t = ctx.rng.choice([(4, 2), (6, 0), (5, 5), (6, 3)])
         ctl = dc.random_run(ctx, ctx.rng, conc, end_t, warm_t, "pause", cmds=CMDS, ncmds=ctx.rng.choice([2, 4, 8]),
-                            maxev=ctx.rng.choice([5, 7, 9]), model_factory=PubModel, dispose=False)
+                            maxev=ctx.rng.choice([5, 7, 9]), model_factory=PubModel, dispose=False, reinit=(i % 2 == 0))
         try:
             with dd.quiet():
                 if not ctl.errors and ctl.sim.run_state.name != "ENDED" and ctx.rng.random() < 0.8:
@@ -220,6 +220,6 @@ def run(ctx: Ctx):
                                           {"trace": items[base + tid - 1][0]})
     dc.validate_groups(ctx, groups, print_stats=True, on_output=on_output)
     ctx.notes["recorded_runs_with_statistics_compared"] = compared[0]
-    if compared[0] < n // 3:
+    if compared[0] < n // 3 and not ctx.violations:
         raise tlc.MachineryError(f"vacuity: only {compared[0]} recorded runs had their statistics compared")
     dc.selftest(ctx, {k: [(t, m) for t, m in v] for k, v in groups.items()})
